@@ -10,7 +10,7 @@ from __future__ import annotations
 import ast
 import re
 
-from ..core import UNKNOWN, AnalysisError, FuncInfo, body_no_doc, walk_no_nested
+from ..core import UNKNOWN, AnalysisError, FuncInfo, body_no_doc, norm, walk_no_nested
 from ..strflow import parts
 from ..tables import _elif_arms, if_chains
 
@@ -219,6 +219,25 @@ def r18b(ctx):
             ctx.instance("R18b", f"{te.file}:{te.ident}", f"suffix {suf!r} of length {len(suf or '')} cut by [:-{cut}]", ok=ok, nontrivial=True, line=n.lineno)
             if not ok:
                 ctx.report("R18b", te, n, f"endswith({suf!r}) cut {cut}", "the slice removing the UTC offset does not have the offset's length")
+    # --- every encoded date/datetime string comes from isoformat(); strftime("%Y…") does not zero-pad years < 1000 on glibc
+    for q in ("Date.encode", "DateTime.encode"):
+        fe = repo.func(q)
+        for r in [n for n in walk_no_nested(fe.node) if isinstance(n, ast.Return) and n.value is not None]:
+            def derives(e, depth=0):
+                if any(isinstance(c, ast.Call) and isinstance(c.func, ast.Attribute) and c.func.attr == "isoformat" for c in ast.walk(e)):
+                    return True
+                if depth < 3:
+                    for nm in [x.id for x in ast.walk(e) if isinstance(x, ast.Name)]:
+                        for a in walk_no_nested(fe.node):
+                            if isinstance(a, ast.Assign) and isinstance(a.targets[0], ast.Name) and a.targets[0].id == nm and derives(a.value, depth + 1):
+                                return True
+                return False
+            ok = derives(r.value)
+            ctx.instance("R18b", f"{fe.file}:{fe.ident}", f"return {norm(r.value, 40)} derives from isoformat()", ok=ok, nontrivial=True, line=r.lineno)
+            if not ok:
+                ctx.report("R18b", fe, r, f"{q}: return {norm(r.value, 50)} not from isoformat()",
+                           f"{q} builds this result without isoformat(): strftime-style formatting does not zero-pad years below 1000 (and drops what the "
+                           f"format omits), so the string leaves the ODF lexical form and cannot be decoded")
     # --- Date pairing
     de, dd = repo.func("Date.encode"), repo.func("Date.decode")
     e_iso = any(isinstance(n, ast.Attribute) and n.attr == "isoformat" for n in ast.walk(de.node))
@@ -327,6 +346,8 @@ SEEDS = [
     Seed("Duration.encode forgets to reduce minutes", "fault", _DT, "        microseconds %= 60 * 1000000\n", "", "R18b"),
     Seed("Duration.decode stores hours in minutes", "fault", _DT,
          '            elif c == "H":\n                hours = int(buffer)', '            elif c == "H":\n                minutes = int(buffer)', "R18b"),
+    Seed("Date.encode formats datetimes with strftime", "fault", _DT, "            return value.date().isoformat()", "            return value.strftime(DATE_FORMAT)", "R18b"),
+    Seed("DateTime.encode drops microseconds via strftime", "fault", _DT, "        text = value.isoformat()\n        if text.endswith", "        text = value.strftime(DATETIME_FORMAT)\n        if text.endswith", "R18b"),
     Seed("colour channel out of range", "fault", "src/odfdo/const.py", '"aliceblue": (240, 248, 255)', '"aliceblue": (240, 248, 256)', "R18c"),
     Seed("basic colour wrong", "fault", "src/odfdo/const.py", '"navy": (0, 0, 128)', '"navy": (0, 0, 182)', "R18c"),
     Seed("upper-case key", "fault", "src/odfdo/const.py", '"aliceblue":', '"AliceBlue":', "R18c"),
